@@ -645,7 +645,7 @@ func VH19d_transports() {
 		}
 		after, gerr2 := o.GetOption(name)
 		verif.Assert(gerr2 == nil, lab+"/get-after-set")
-		if gerr2 == nil && kindOf(before) >= 0 && name != mangos.OptionNoDelay && name != mangos.OptionKeepAlive {
+		if gerr2 == nil && kindOf(before) >= 0 && name != mangos.OptionNoDelay {
 			if err == nil {
 				verif.Assert(sameValue(val, after), lab+"/get-returns-set-value")
 			} else {
